@@ -146,6 +146,14 @@ impl<T: Clone> Stack<T> {
     }
 }
 
+#[cfg(pest_parser_pest_verif)]
+impl<T: Clone> Stack<T> {
+    /// Number of snapshots currently outstanding (verification harness only).
+    pub fn verif_snapshot_depth(&self) -> usize {
+        self.lengths.len()
+    }
+}
+
 impl<T: Clone> Index<Range<usize>> for Stack<T> {
     type Output = [T];
 
